@@ -7,6 +7,7 @@ import (
 
 	"github.com/anishathalye/porcupine"
 	"github.com/netflix/rend/handlers"
+	"github.com/netflix/rend/handlers/memcached/chunked"
 
 	"verif/fakemc"
 	"verif/rt"
@@ -317,6 +318,9 @@ func runConcWithFault(sc ConcScenario, hf *HandlerFault, prefix []int) (res *Con
 		add("backend-stream", fmt.Sprintf("hung=%v spun=%v garbage=%v residue=%d", hung, spun, bad, residue))
 	}
 	res.L1, res.L2 = w.L1.Dump(), w.L2.Dump()
+	if sc.Cfg.L1H == "chunked" {
+		res.L1 = chunkDump(w.L1)
+	}
 	var o []string
 	for _, h := range res.Hist {
 		o = append(o, fmt.Sprintf("T%d.%d=%s", h.Thread, h.Idx, h.Reply.Canon()))
@@ -334,7 +338,16 @@ func runConcWithFault(sc ConcScenario, hf *HandlerFault, prefix []int) (res *Con
 			add("not-linearizable", "no sequential order consistent with real time explains the replies: "+res.Outcome)
 		}
 		// at quiescence L1 holds no entry that differs from L2's
-		if sc.Cfg.Orca != "l1only" {
+		if sc.Cfg.Orca != "l1only" && sc.Cfg.L1H == "chunked" {
+			hh := chunked.NewHandler(fakemc.NewConn(w.L1, "final"))
+			for _, k := range w.L2.Keys() {
+				r := CallHandler(hh, wire.Op{Kind: "get", Key: k})
+				b := w.L2.Lookup(k)
+				if len(r.Hits) == 1 && (b == nil || r.Hits[0].Val != string(b.Val) || r.Hits[0].Flags != b.Flags) {
+					add("l1-differs-from-l2", fmt.Sprintf("after all commands completed the chunked L1 serves %q=%q/%x, L2 holds %v", k, r.Hits[0].Val, r.Hits[0].Flags, b))
+				}
+			}
+		} else if sc.Cfg.Orca != "l1only" {
 			for _, k := range w.L1.Keys() {
 				a := w.L1.M[k]
 				b := w.L2.Lookup(k)
